@@ -71,6 +71,9 @@ pub fn run(cfg: &RunCfg) -> Ctx {
     all.floor("class.trailers_only", 5);
     all.floor("transport.splits", 100);
     all.floor("transport.merges", 20);
+    all.floor("cfg.server_compresses", 20);
+    all.floor("cfg.client_compresses", 20);
+    all.floor("cfg.empty_message_under_compression", 3);
     all
 }
 
@@ -97,10 +100,30 @@ fn loop_case(rng: &mut Rng, ctx: &mut Ctx, idx: u64) {
     }
     let handler = Handler::new();
     handler.set_script(&spec.id, script.clone());
-    let server = VerifServer::new(handler.clone());
+    // compression negotiated in either direction must be invisible at the API
+    let c_send = if rng.chance(1, 3) { Some(*rng.pick(crate::refc::Enc::compressed())) } else { None };
+    let s_send = if rng.chance(1, 3) { Some(*rng.pick(crate::refc::Enc::compressed())) } else { None };
+    let mut server = VerifServer::new(handler.clone());
+    for e in crate::refc::Enc::compressed() {
+        server = server.accept_compressed(e.tonic().unwrap());
+    }
+    if let Some(e) = s_send {
+        server = server.send_compressed(e.tonic().unwrap());
+        ctx.count("cfg.server_compresses");
+    }
     let lb = Loopback::new(server, rng.u64(), max_piece);
     let stats = lb.stats.clone();
     let mut client = VerifClient::new(lb);
+    for e in crate::refc::Enc::compressed() {
+        client = client.accept_compressed(e.tonic().unwrap());
+    }
+    if let Some(e) = c_send {
+        client = client.send_compressed(e.tonic().unwrap());
+        ctx.count("cfg.client_compresses");
+    }
+    if script.msgs.iter().chain(spec.req_msgs.iter()).any(|m| m.data.is_empty() && m.seq == 0 && m.tag.is_empty()) && (c_send.is_some() || s_send.is_some()) {
+        ctx.count("cfg.empty_message_under_compression");
+    }
     let mut ex = Exec::new();
     let view = match ex.block_on(200_000, do_call(&mut client, &spec, None)) {
         Out::Done(v) => v,
